@@ -2,7 +2,7 @@
 import re, vcheck
 
 PID = "C07"
-MODULES = ["BeffVerif.Props.C07"]
+MODULES = ["BeffVerif.Props.C07", "BeffVerif.Props.C07Print"]
 AUDIT = "BeffVerif/Audit/C07.lean"
 HYP = {"NoObjectUnionOnLeft": "D25"}
 
@@ -64,7 +64,7 @@ def run(chk):
          "the printer are those of the C01 model",
          "C07: the reference reads `Exclude`, `keyof` and `T[K]` as TypeScript does (distribution over union members; exclusions of literals from `number` / `string` are dropped: "
          "`Exclude<number, 1>` = number) and values as the validators do (readings S1–S6 of the C01 reference)"],
-        ["materialisation denotes the computed set for ALL type vectors: not proved (closed kernel-checked witnesses only); decided per instance by correspondence + reference oracle",
+        ["materialisation denotes the computed set for ALL type vectors: not proved (closed kernel-checked witnesses; the general theorem is printability only: Props/C07Print removeNots_spine_free, exclude_result_spine_free); decided per instance by correspondence + reference oracle",
          "helper names are defined exactly once for ALL recursive operands: not proved in general (witness recursive_result_keeps_its_definition + the correspondence: a duplicate "
          "definition with a different body panics in insert_definition and would surface as a crash)",
          "D25 (open, shared with C05): `Exclude` over a union with two or more object members inherits the exact/structural polarity mismatch of is_subtype"],
